@@ -358,7 +358,7 @@ func runC15(cfg config) {
 				p2 := sv.ToProtoDate()
 				sv2, err2 := system.DateFromProto(p2)
 				lit, err3 := system.ParseDate(want)
-				same = err2 == nil && err3 == nil && p2.Precision == p && strings.TrimPrefix(sv.String(), "@") == want && sv2.String() == sv.String() && sv.Equal(lit) && sv2.Equal(lit)
+				same = err2 == nil && err3 == nil && p2.Precision == p && strings.TrimPrefix(sv.String(), "@") == want && sv2.String() == sv.String() && sv.Equal(lit) && sv2.Equal(lit) && tryEq(sv, lit) && tryEq(lit, sv2) && p2.ValueUs == lit.ToProtoDate().ValueUs
 			}
 			addRound("RProtoSysProto", true, 0, fmt.Sprintf("Date proto precision %s tz %s value_us %d (calendar day)", p, zc.tz, vus), same)
 		}
@@ -496,4 +496,10 @@ func runC15(cfg config) {
 		}
 	}
 	sink.finish("string literals: every string of length <= 2 (thorough: 3) over an alphabet of every escape, quote, backslash, slash, control and non-ASCII character plus seeded longer strings, as canonical (escaped) literals and as raw source texts built from valid, invalid and truncated escape sequences; integer narrowing: all 11x11 type pairs x exhaustive 8-bit and boundary 16/32/64-bit values; System<->FHIR primitive conversion for every precision enum and offset form; FHIR primitive parse/format helpers over precision x fraction digits 0..6 x offset forms, compared with google/fhir's JSON rendering", false)
+}
+
+// tryEq: the comparison the `=` operator makes (Date.Equal compares the printed text only)
+func tryEq(a, b system.Date) bool {
+	eq, ok := a.TryEqual(b)
+	return eq && ok
 }
